@@ -355,7 +355,7 @@ def loopGo (b : Poll) (statusOf : Nat → St) (done : List (Nat × St)) :
     | .ok b3 =>
       let done' := match e.decision with
         | .continue => done
-        | .stop => aset t (if polled ≠ .completed then St.stopped else polled) done
+        | .stop => aset t (if polled = .completed then polled else St.stopped) done
         | .pause => aset t St.paused done
       let b3' := b3.upd t (PTrial.markDecided e.decision)
       let b4 := if e.decision = .stop then
